@@ -18,7 +18,7 @@ import z3
 
 from .engine import ProgExc, Unsupported
 from .models import EXTRA_METHODS, EXTRA_MODELS, BUILTIN_MODELS
-from .values import Iter, NArr, NativeMethod, PDict, PList, SArr, Sym, fresh, fresh_name, frac, kind_of, next_uid, to_z3, zint
+from .values import Func, Iter, NArr, NativeMethod, PDict, PList, SArr, Sym, fresh, fresh_name, frac, kind_of, next_uid, to_z3, zint
 
 R = z3.RealSort()
 _OPS = {ast.Mult: operator.mul, ast.Add: operator.add, ast.Sub: operator.sub, ast.Div: operator.truediv}
@@ -565,6 +565,9 @@ class SceneVal:
         if not hasattr(mat, "z"):
             raise ProgExc(TypeError, "SDFObject material")
         row = tuple([SDF_TAG[sdf.kind]] + list(sdf.params) + [Sym(mat.z, "ref")])
+        hook = eng.ghost.get("scene_add_hook")  # contract ghost code: an EFFECT obligation per object that reaches the scene
+        if hook is not None and not eng.spec_mode:
+            hook(eng, recv, row)
         eng.models.LIST_METHODS["append"](eng, recv.objects, [row], {})
         recv.built = False
         return None
@@ -991,10 +994,56 @@ def _np_add(eng, args, kwargs):
     return eng.binop(ast.Add(), vals[0], vals[1])
 
 
+class MemoFn:
+    """functools.cache(f) / functools.lru_cache(maxsize=m)(f): a callable that returns what f returns (a call runs f's body; that repeated
+    calls with one argument are answered from the cache is invisible as long as f is a function of its arguments and of state that does not
+    change - here: the file system, which is assumed not to change during a call)."""
+
+    def __init__(self, func, maxsize):
+        self.func, self.maxsize = func, maxsize
+
+    def __pyvc_call__(self, eng, args):
+        return eng.call(self.func, list(args), {})
+
+    def __pyvc_snapshot__(self, memo):
+        return self
+
+
+def _functools_cache(eng, args, kwargs):
+    used(eng, "functools.cache / functools.lru_cache(maxsize): the decorated function, memoised (same results; the memoised functions read the file system, assumed unchanged)")
+    if len(args) != 1 or kwargs:
+        raise Unsupported("functools.cache call form")
+    return MemoFn(args[0], None)
+
+
+def _functools_lru_cache(eng, args, kwargs):
+    used(eng, "functools.cache / functools.lru_cache(maxsize): the decorated function, memoised (same results; the memoised functions read the file system, assumed unchanged)")
+    if args and (isinstance(args[0], Func) or callable(args[0])) and not kwargs and len(args) == 1 and not isinstance(args[0], (int, Sym)):
+        return MemoFn(args[0], 128)  # @lru_cache without parentheses
+    names = ["maxsize", "typed"]
+    if len(args) > 2 or any(k not in names for k in kwargs):
+        raise ProgExc(TypeError, "lru_cache() arguments")
+    b = dict(zip(names, args))
+    b.update(kwargs)
+    maxsize = b.get("maxsize", 128)
+    if not (maxsize is None or isinstance(maxsize, int) or (isinstance(maxsize, Sym) and maxsize.kind == "int")):
+        raise ProgExc(TypeError, "Expected first argument to be an integer, a callable, or None")
+
+    def deco(e, recv, a, k):
+        if len(a) != 1 or k:
+            raise Unsupported("lru_cache(...) applied to something that is not one function")
+        return MemoFn(a[0], maxsize)
+
+    return NativeMethod(deco, None, "lru_cache(maxsize)")
+
+
 def _install_io():
+    import functools
     import os
 
     EXTRA_MODELS[np.add] = _np_add
+    EXTRA_MODELS[functools.cache] = _functools_cache
+    EXTRA_MODELS[functools.lru_cache] = _functools_lru_cache
 
     from . import narr
 
